@@ -110,6 +110,8 @@ def applyItem (v : V) (item : String) : Except String V := do
       let s' ← copCmd v.s d "cl" {}
       pure { s := s', pending := newEvents v.s s', idx := v.idx + 1 }
     | none => throw "bad-op"
+  | ["c", "hw", _] => throw "the script completed a CloseWrite: the model of copyLoop has no half-close"
+  | ["c", "hr", _] => throw "the script completed a CloseRead: the model of copyLoop has no half-close"
   | _ => throw "bad-op"
 
 def isPrefix (a b : Bytes) : Bool := a.length ≤ b.length && b.take a.length == a
